@@ -47,6 +47,16 @@ Parameter-coverage additions (audit of every sampler x every parameter):
   C14.sample.chain_deficient: the scripted audit of every multi-index (and 60 real draws); C14.sample_square.gof_deficient /
   C14.sample.gof_deficient: the protocol-independent frequency test.  The last mode is wide enough (n_d >= r + 2) for the
   triangular factor of the last unfolding to be square, shapes up to 120 entries.
+Input forms (audit f3-forms; reference = exact dense distribution of the float64 image of the cores):
+* C14.forms.sample.chain / C14.forms.sample_square.chain: the scripted audit of every multi-index (and 40 real draws) with the cores
+  as float32 / int64 / int32 / mixed dtypes / Fortran order / strided views / read-only / a tuple of cores, m as numpy.int64 / int32 /
+  float / numpy.float64, positional (documented order) / keyword / mixed calls (sample_square on float32 cores: 2e-5, the
+  orthogonalisation runs in single precision then).
+* C14.forms.samplers: sample_lhs / sample_rand / sample_rand_poi with n (a, b) as tuple / int32 / uint8 / float / float32 array / list of
+  numpy.int64 / list of floats, m in the same number forms, positional / keyword calls; C14.sample_tt.layout with n as tuple / int32 /
+  uint8 array / list of numpy.int64 and r as a NumPy number.
+* C14.seed.numpy_integer: NumPy integers as seed - FAILS on the clean tree for every sampler (utils._rand tests isinstance(seed, int);
+  AttributeError: 'numpy.int64' object has no attribute 'choice'); possible genuine defect, reported.
 # DOUBTFUL (not yielded): sample_tt(n) with n given as floats (the docstring allows "int/float") raises TypeError
 # (range(n[i])), e.g. sample_tt(np.array([3., 4.]), 2, seed=1); sample_lhs / sample_rand accept float n.
 # float_cf of sample_square returns non-integer "indices" by design and is outside the statement.
@@ -68,7 +78,9 @@ BOUNDS = ('chain audits: 14 shapes with <= 24 entries (quick) / 24 shapes with <
           'few rows per call (2 <= m <= n[0], n[0] = 4 .. 300): replace flag of every recorded draw, 250 / 3000 calls x m rows '
           'goodness of fit + pairwise independence of rows 0 / 1, unique=True candidates with m_fact*m <= n[0]; '
           'rank-deficient unfoldings: 16 forms (block sums in 6 orders, dependent / zero rows and columns low / high, zero padding x 3, '
-          'duplicated bonds) x 6 shapes with 15 .. 60 entries (thorough 11, <= 120) x ranks 1..3, scripted + real draws, gof 2500 / 20000 draws')
+          'duplicated bonds) x 6 shapes with 15 .. 60 entries (thorough 11, <= 120) x ranks 1..3, scripted + real draws, gof 2500 / 20000 draws; '
+          'input forms: 8 core forms x 5 number forms x 5 call forms in rotation over 3 (6) shapes for sample / sample_square chains, 6 shape / box forms for '
+          'lhs / rand / rand_poi, 4 for sample_tt; NumPy integer seeds for the 6 samplers')
 
 SHAPES_Q = [[2, 3], [3, 2], [4, 6], [1, 5], [5, 1], [2, 2, 2], [3, 2, 2], [2, 3, 4], [1, 3, 2], [3, 1, 4], [2, 2, 2, 3],
             [2, 1, 2, 2], [2, 2, 2, 2], [3, 2, 1, 4]]
@@ -89,8 +101,10 @@ class Audit:
 
     def choice(self, a, size=None, replace=True, p=None, axis=0, shuffle=True):
         pr = None if p is None else np.array(p, dtype=float, copy=True)
-        if pr is not None:          # the validation a real Generator performs
-            if pr.ndim != 1 or np.any(np.isnan(pr)) or np.any(pr < 0) or abs(pr.sum() - 1) > 1e-8:
+        if pr is not None:          # the validation a real Generator performs (single-precision p: its own, wider tolerance)
+            pd = np.asarray(p).dtype
+            atol = float(np.sqrt(np.finfo(pd).eps)) if pd.kind == 'f' and pd.itemsize < 8 else 1e-8
+            if pr.ndim != 1 or np.any(np.isnan(pr)) or np.any(pr < 0) or abs(pr.sum() - 1) > atol:
                 raise ValueError(f'audit: invalid probability vector {pr}')
         if self._script is None:
             r = self._g.choice(a, size=size, replace=replace, p=p, axis=axis, shuffle=shuffle)
@@ -227,7 +241,52 @@ def _deficient(n, r, seed, square, form):
     return Y, W.astype(float), int(W.sum())
 
 
-def _call(fn, Y, m, g, unsert):
+CORE_FORMS = ('f32', 'i64', 'i32', 'mixed', 'F', 'V', 'ro', 'tuple')
+NUM_FORMS = ('npi64', 'npi32', 'float', 'npf64', 'int')
+CALL_FORMS = ('pos', 'kw', 'mix:2', 'min', 'kwmin')
+REQ = gen.call_form.REQ
+
+
+def _arr_form(G, form, k=0):
+    """the integer-valued float64 array G with the same values in another dtype / memory layout"""
+    if form == 'mixed':
+        form = ('f32', 'i64', 'f64', 'i32')[k % 4]
+    if form in ('f64', 'tuple'):
+        return G.copy()
+    if form in ('f32', 'i64', 'i32', 'u8'):
+        H = G.astype({'f32': np.float32, 'i64': np.int64, 'i32': np.int32, 'u8': np.uint8}[form])
+        assert np.array_equal(H.astype(float), G)
+        return H
+    if form == 'F':
+        return np.asfortranarray(G)
+    if form == 'V':
+        big = np.full([2 * k_ for k_ in G.shape], 7.0)
+        sl = tuple(slice(None, None, 2) for _ in G.shape)
+        big[sl] = G
+        return big[sl]
+    if form == 'ro':
+        H = G.copy()
+        H.setflags(write=False)
+        return H
+    raise ValueError(form)
+
+
+def _cores_form(Y, form):
+    Z = [_arr_form(G, form, k) for k, G in enumerate(Y)]
+    return tuple(Z) if form == 'tuple' else Z
+
+
+def _num(v, form):
+    return {'int': int, 'npi64': np.int64, 'npi32': np.int32, 'float': float, 'npf64': np.float64}[form](v)
+
+
+def _call(fn, Y, m, g, unsert, call=None):
+    if call is not None:              # the call written in one of the forms of gen.call_form, documented parameter order
+        if fn == 'sample':
+            return gen.call_form(teneva.sample, ('Y', 'm', 'seed', 'unsert'), (Y, m, g, 1.E-10 if unsert is None else unsert),
+                                 (REQ, 1, None, 1.E-10), call)
+        return gen.call_form(teneva.sample_square, ('Y', 'm', 'unique', 'seed', 'm_fact', 'max_rep', 'float_cf'),
+                             (Y, m, False, g, 5, 100, None), (REQ, 1, True, None, 5, 100, None), call)
     if fn == 'sample':
         return teneva.sample(Y, m, seed=g) if unsert is None else teneva.sample(Y, m, seed=g, unsert=unsert)
     return teneva.sample_square(Y, m, unique=False, seed=g)
@@ -300,7 +359,7 @@ def _kron_square(X):
     return [np.einsum('aib,cid->acibd', G, G).reshape(G.shape[0] ** 2, G.shape[1], G.shape[2] ** 2) for G in X]
 
 
-def _run_chain(fn, n, r, seed, scripted, m, unsert, exp=0, signed=False, form=None):
+def _run_chain(fn, n, r, seed, scripted, m, unsert, exp=0, signed=False, form=None, cores=None, mform=None, call=None):
     square = fn == 'sample_square'
     if form is not None:
         Y, W, total = _deficient(n, r, seed, square, form)
@@ -329,13 +388,15 @@ def _run_chain(fn, n, r, seed, scripted, m, unsert, exp=0, signed=False, form=No
     else:
         T, M = None, m
         g = Audit(seed)
-    snap = gen.snapshot(Y)
+    if cores is not None:             # the same (integer-valued) tensor in another dtype / memory layout / container
+        Y = _cores_form(Y, cores)
+    snap = gen.snapshot(list(Y))
     try:
-        I = _call(fn, Y, M, g, unsert)
+        I = _call(fn, Y, M if mform is None else _num(M, mform), g, unsert, call)
     except Exception as e:
         return FAIL(f'{fn} raised {type(e).__name__}: {str(e)[:200]}'
                     + (' (see clause C14.sample_square.runs)' if square else ''))
-    if gen.snapshot(Y) != snap:
+    if gen.snapshot(list(Y)) != snap:
         return FAIL('argument tensor modified')
     if not isinstance(I, np.ndarray) or I.shape != (M, d) or I.dtype.kind not in 'iu':
         return FAIL(f'result shape {getattr(I, "shape", None)} dtype {getattr(I, "dtype", None)}, expected ({M}, {d}) int')
@@ -346,7 +407,10 @@ def _run_chain(fn, n, r, seed, scripted, m, unsert, exp=0, signed=False, form=No
         return FAIL(f'unexpected generator methods used: {sorted(set(g.other))}')
     us = 1e-10 if unsert is None else unsert
     tol_first = (4 * n[0] * us / total + 1e-12) if not square else 1e-10
-    msg = _audit(fn, Y, W, total, I, g.log, tol_first, 1e-12 if not square else 1e-10)
+    tol_sq = 1e-10
+    if square and cores in ('f32', 'mixed'):      # float32 cores: the orthogonalisation of the library runs in single precision
+        tol_first = tol_sq = 2e-5
+    msg = _audit(fn, Y, W, total, I, g.log, tol_first, 1e-12 if not square else tol_sq)
     if msg:
         return FAIL(msg)
     if scripted:
@@ -417,6 +481,91 @@ def sample_chain_deficient(n, r, seed, form, scripted):
     """sample on NON-NEGATIVE tensors of the same rank-deficient forms (non-negative cores): conditionals == dense
     conditionals, product == entry / total for every multi-index."""
     return _run_chain('sample', n, r, seed, bool(scripted), 60, 0.0, form=form)
+
+
+@clause('C14.forms.sample.chain', funcs=('sample.sample',))
+def forms_sample_chain(n, r, seed, cores, mform, call, scripted):
+    """sample on a non-negative integer-valued tensor handed over as float32 / int64 / int32 / mixed-dtype / Fortran-ordered /
+    strided / read-only cores or a tuple of cores, m as numpy.int64 / int32 / float / numpy.float64, the arguments positionally in
+    the documented order (Y, m, seed, unsert) / by keyword / mixed: the scripted audit of every multi-index (or 40 real draws) -
+    conditionals == dense conditionals of the float64 image, product == entry / total, int result of shape (m, d)."""
+    return _run_chain('sample', n, r, seed, bool(scripted), 40, 0.0 if seed % 2 else None, cores=cores, mform=mform, call=call)
+
+
+@clause('C14.forms.sample_square.chain', funcs=('sample.sample_square', 'sample._sample_core_first'))
+def forms_sample_square_chain(n, r, seed, cores, mform, call, scripted):
+    """The same for sample_square(unique=False) and squared entries, arguments in the documented order (Y, m, unique, seed,
+    m_fact, max_rep, float_cf); float32 cores: conditionals to single precision (2e-5)."""
+    return _run_chain('sample_square', n, r, seed, bool(scripted), 40, None, cores=cores, mform=mform, call=call)
+
+
+@clause('C14.forms.samplers', funcs=('sample.sample_lhs', 'sample.sample_rand', 'sample.sample_rand_poi'))
+def forms_samplers(fn, n, m, seed, nform, mform, call, genobj):
+    """sample_lhs / sample_rand / sample_rand_poi with the shape n (resp. the box a, b) as tuple / int32 / uint8 / float array /
+    list of numpy.int64 / list of floats, m as numpy.int64 / int32 / float / numpy.float64, positional (n, m, seed) or keyword calls,
+    int or Generator seed: int64-kind array (points: float64) of shape (m, d) inside the bounds; LHS: floor / ceil usage rule."""
+    d = len(n)
+    sd = np.random.default_rng(seed) if genobj else seed
+    conv = {'list': list, 'tuple': tuple, 'i32': lambda v: np.array(v, dtype=np.int32), 'u8': lambda v: np.array(v, dtype=np.uint8),
+            'farr': lambda v: np.array(v, dtype=float), 'f32arr': lambda v: np.array(v, dtype=np.float32),
+            'npi64list': lambda v: [np.int64(x) for x in v], 'floatlist': lambda v: [float(x) for x in v]}[nform]
+    mf = _num(m, mform)
+    if fn == 'sample_rand_poi':
+        a, b = [-1 - k for k in range(d)], [k + 1 for k in range(d)]
+        X = gen.call_form(teneva.sample_rand_poi, ('a', 'b', 'm', 'seed'), (conv(a), conv(b), mf, sd), (REQ, REQ, REQ, None), call)
+        if not isinstance(X, np.ndarray) or X.shape != (m, d) or X.dtype != np.float64:
+            return FAIL(f'shape {getattr(X, "shape", None)} dtype {getattr(X, "dtype", None)}')
+        if not (np.all(X >= np.array(a)) and np.all(X <= np.array(b))):
+            return FAIL('point outside the box (or not a number)')
+        if m >= 3 and any(len(np.unique(X[:, k])) < 2 for k in range(d)):
+            return FAIL('constant coordinate')
+        return PASS
+    f = {'sample_lhs': teneva.sample_lhs, 'sample_rand': teneva.sample_rand}[fn]
+    I = gen.call_form(f, ('n', 'm', 'seed'), (conv(n), mf, sd), (REQ, REQ, None), call)
+    if not isinstance(I, np.ndarray) or I.shape != (m, d) or I.dtype.kind not in 'iu':
+        return FAIL(f'shape {getattr(I, "shape", None)} dtype {getattr(I, "dtype", None)}')
+    if I.min() < 0 or np.any(I.max(axis=0) >= np.array(n)):
+        return FAIL(f'index outside [0, n): column maxima {I.max(axis=0).tolist()} for n={n}')
+    if fn == 'sample_lhs':
+        for k, nk in enumerate(n):
+            msg = _lhs_ok(I[:, k], nk, m)
+            if msg:
+                return FAIL(f'mode {k}: ' + msg)
+    return PASS
+
+
+SEED_FNS = ('sample', 'sample_square', 'sample_lhs', 'sample_rand', 'sample_rand_poi', 'sample_tt')
+
+
+@clause('C14.seed.numpy_integer', funcs=('utils._rand', 'sample.sample', 'sample.sample_square', 'sample.sample_lhs', 'sample.sample_rand',
+                                         'sample.sample_rand_poi', 'sample.sample_tt'))
+def seed_numpy_integer(fn, n, m, seed, stype):
+    """"seed (int): random seed. It should be an integer number or a numpy Generator class instance" / "for all seeds": a seed
+    that is a NumPy integer (numpy.int64 - what rng.integers(...), an element of an integer array or n.max() yield - or int32 /
+    uint8) is an integer number: every sampler returns an array of the requested shape inside the bounds, like for the Python
+    int of the same value.  FAILS on the clean tree (possible genuine defect, reported): utils._rand tests isinstance(seed, int),
+    a NumPy integer is handed through as if it were a Generator -> AttributeError: 'numpy.int64' object has no attribute 'choice'."""
+    d = len(n)
+    sd = {'npi64': np.int64, 'npi32': np.int32, 'npu8': np.uint8}[stype](seed)
+    try:
+        if fn == 'sample':
+            I = teneva.sample([G + 1.0 for G in gen.tt(n, 2, seed, 'pos')], m, seed=sd)
+        elif fn == 'sample_square':
+            I = teneva.sample_square(gen.tt(n, 2, seed, 'gauss'), m, unique=False, seed=sd)
+        elif fn == 'sample_lhs':
+            I = teneva.sample_lhs(n, m, seed=sd)
+        elif fn == 'sample_rand':
+            I = teneva.sample_rand(n, m, seed=sd)
+        elif fn == 'sample_rand_poi':
+            I = np.floor(teneva.sample_rand_poi([0.] * d, [float(k) for k in n], m, seed=sd)).astype(int)
+        else:
+            I = teneva.sample_tt(n, m, seed=sd)[0]
+            m = len(I)
+    except AttributeError as e:
+        return FAIL(f'{fn}(seed={stype}({seed})) raised AttributeError: {e}')
+    if not isinstance(I, np.ndarray) or I.shape != (m, d) or I.dtype.kind not in 'iu':
+        return FAIL(f'shape {getattr(I, "shape", None)} dtype {getattr(I, "dtype", None)}')
+    return check(I.min() >= 0 and np.all(I.max(axis=0) < np.array(n)), 'index outside the bounds')
 
 
 @clause('C14.sample_square.runs', funcs=('sample.sample_square',))
@@ -764,13 +913,20 @@ def lhs_shuffled(nk, m, seed):
 
 
 @clause('C14.sample_tt.layout', funcs=('sample.sample_tt',))
-def sample_tt_layout(n, r, seed, genobj, as_array):
+def sample_tt_layout(n, r, seed, genobj, as_array, nform=None, rform='int', call=None):
     """(I, idx, idx_many): idx = offsets partitioning I into one block per mode; block k has n_k * L * R rows with
     L = number of LHS prefixes (1 for k = 0), R = idx_many[k] = number of LHS suffixes (1 for the last mode), row
     (i_k * L + l) * R + j = (prefix l, i_k, suffix j); prefixes / suffixes are LHS samples of r rows."""
     d = len(n)
     sd = np.random.default_rng(seed) if genobj else seed
-    out = teneva.sample_tt(np.array(n) if as_array else list(n), r, seed=sd)
+    nn = np.array(n) if as_array else list(n)
+    if nform is not None:             # other forms of the shape: tuple / int32 / uint8 array / list of numpy.int64
+        nn = {'tuple': tuple, 'i32': lambda v: np.array(v, dtype=np.int32), 'u8': lambda v: np.array(v, dtype=np.uint8),
+              'npi64list': lambda v: [np.int64(x) for x in v]}[nform](n)
+    if call is not None:
+        out = gen.call_form(teneva.sample_tt, ('n', 'r', 'seed'), (nn, _num(r, rform), sd), (REQ, 4, None), call)
+    else:
+        out = teneva.sample_tt(nn, _num(r, rform), seed=sd)
     if not isinstance(out, tuple) or len(out) != 3:
         return FAIL('result is not a triple')
     I, idx, idx_many = out
@@ -927,3 +1083,43 @@ def cases(tier, seed):
     for n, m, m_fact in (([10, 3], 2, 5), ([12, 2, 2], 2, 5), ([6, 4], 3, 2), ([6, 2, 3], 6, 1), ([300, 2], 40, 5), ([25, 2], 5, 5)):
         for r in (1, 2, 3):
             yield 'C14.sample_square.unique_first_draw', dict(n=n, r=r, seed=rs(), m=m, m_fact=m_fact)
+    # ---- input forms (audit f3-forms): own stream of seeds, every form of every argument at least once in quick
+    gf = gen.rng('C14.forms', seed)
+
+    def fs():
+        return int(gf.integers(1 << 30))
+
+    k = 0
+    for rnd in range(4 if big else 1):
+        for n in ([3, 4], [2, 3, 2], [2, 2, 2, 3]) + (([4, 5, 3], [2, 2, 2, 2, 2], [6, 2]) if big else ()):
+            for cf in CORE_FORMS:
+                k += 1
+                if not big and len(n) == 4 and k % 2:
+                    continue
+                p = dict(n=n, r=1 + (k + rnd) % 3, seed=fs(), cores=cf, mform=NUM_FORMS[(k + rnd) % 5], call=CALL_FORMS[(k // 2 + rnd) % 5],
+                         scripted=int(k % 4 != 0))
+                yield 'C14.forms.sample.chain', p
+                yield 'C14.forms.sample_square.chain', dict(p, seed=fs())
+    k = 0
+    for fn, nforms in (('sample_lhs', ('tuple', 'i32', 'u8', 'farr', 'npi64list', 'floatlist')),
+                       ('sample_rand', ('tuple', 'i32', 'u8', 'farr', 'npi64list', 'floatlist')),
+                       ('sample_rand_poi', ('tuple', 'i32', 'farr', 'f32arr', 'npi64list', 'floatlist'))):
+        for nform in nforms:
+            for (n, m) in (([3, 4], 7), ([2, 5, 3], 10), ([300, 2], 4)) + ((([6, 6, 6, 2], 13), ([1, 4], 1)) if big else ()):
+                k += 1
+                if nform == 'u8' and max(n) > 255:
+                    continue
+                yield 'C14.forms.samplers', dict(fn=fn, n=n, m=m, seed=fs(), nform=nform, mform=NUM_FORMS[k % 5], call=CALL_FORMS[(k // 3) % 5],
+                                                 genobj=bool(k % 2))
+    k = 0
+    for nform in ('tuple', 'i32', 'u8', 'npi64list'):
+        for n in ([3, 4], [2, 3, 4], [2, 2, 2, 2]) + (([5, 1], [6, 6, 6]) if big else ()):
+            k += 1
+            yield 'C14.sample_tt.layout', dict(n=n, r=1 + k % 4, seed=fs(), genobj=bool(k % 2), as_array=False, nform=nform,
+                                               rform=NUM_FORMS[k % 5], call=CALL_FORMS[k % 5])
+    # NumPy integers as seed (one narrowly named clause: fails on the clean tree, see its docstring)
+    for k, fn in enumerate(SEED_FNS):
+        yield 'C14.seed.numpy_integer', dict(fn=fn, n=[3, 4, 2], m=3, seed=5 + k, stype='npi64')
+    if big:
+        for k, fn in enumerate(SEED_FNS):
+            yield 'C14.seed.numpy_integer', dict(fn=fn, n=[2, 5], m=4, seed=11 + k, stype=('npi32', 'npu8')[k % 2])
